@@ -151,10 +151,52 @@ def run(repo: Repo, rep: Report, tier: str) -> None:
     rep.ok("R19.2", "dialect and discriminator dispatchers are hook-free", None)
     _flags(repo, rep)
     _flag_contract(repo, rep)
+    _hook_and_dispatch_contracts(repo, rep)
     _declared_hook(repo, rep)
     _speculation(repo, rep, c)
     from ..core import siblings as _sib2
     _sib2.check_own_method_tests(repo, rep, "R14.11")
+
+def _hook_and_dispatch_contracts(repo: Repo, rep: Report) -> None:
+    """R19.7: get_declared_hook(name) returns the hook from the class that defines it, for every class except the mixin's own
+    placeholder -- plain dataclasses (nested or handed to a codec) have hooks too.  R19.8: inside a mixin-compiled method a nested
+    dataclass is serialized by calling the method *on the value* (`value.__mashumaro_to_dict__(flags)`): the instance's own class
+    decides, so a subclass instance in a base-typed field runs the subclass's generated code and hooks."""
+    from ..core import helper_contracts as hc
+    from ..core.values import Sym as _Sym
+
+    defn = "get_class_that_defines_method(m, B.cls)"
+    exp = [
+        (f"{defn}.__dict__[m]", {f"is_dataclass_dict_mixin({defn})": False}, []),
+        ("None", {f"bool({defn})": False}, []),
+        ("None", {f"is_dataclass_dict_mixin({defn})": True}, []),
+    ]
+    res = hc.outcome_contract(repo, "CodeBuilder.get_declared_hook", exp, [_Sym("m")],
+                              why="hooks are taken from the defining class unless that class is the mixin itself; restricting the lookup (mixin subclasses only, "
+                                  "attrs holder, ...) drops the hooks of plain dataclasses")
+    hc.report(repo, rep, "R19.7", res, f"{M_BUILDER}::CodeBuilder.get_declared_hook")
+    # dynamic dispatch
+    c = corpus_mod.explore_all(repo, "quick")
+    n = 0
+    seen = set()
+    for it in c.items:
+        if it.scenario != "pack.pack_dataclass" or it.kind != "return" or it.path.atoms.get("bool(B.is_nailed)") is not True:
+            continue
+        t = it.value
+        txt = t.show() if hasattr(t, "show") else str(t)
+        if txt in seen:
+            continue
+        seen.add(txt)
+        n += 1
+        if txt.startswith("{spec.expression}."):
+            rep.ok("R19.8", f"nested dataclass packed by a call on the value: {txt[:70]}", None)
+        else:
+            rep.violation("R19.8", f"{M_PACK}::pack_dataclass", f"nested dataclass packed by `{txt[:80]}`",
+                          "the declared class's packer is called statically: for a subclass instance held in a base-typed field only the base class's fields are emitted and "
+                          "the subclass's __pre_serialize__ / __post_serialize__ never run", loc="")
+    if n < 2:
+        rep.undecide("R19.8", f"only {n} nailed pack_dataclass outcomes")
+
 
 def _flag_contract(repo: Repo, rep: Report) -> None:
     """R19.6: get_pack_method_flags(nested) / get_unpack_method_flags(nested) forward a flag (omit_none, by_alias, dialect,
@@ -196,6 +238,12 @@ def _flag_contract(repo: Repo, rep: Report) -> None:
                     on_self = next((b for k, b in at.items() if opt in k and "get_config(B.cls)" in k), None)
                     if on_nested is True and on_self is True:
                         want.append(flag)
+                    elif (on_nested is None or (on_nested is True and on_self is None)) and flag not in got and not bad:
+                        # the option was never consulted on this path although nothing excludes that both classes enable it
+                        bad = True
+                        rep.violation("R19.6", fi.key, f"{fn}: on a path that forwards {got} the option {opt} is never consulted",
+                                      f"when an earlier option is enabled in the nested class only, the later flags ({flag}, ...) are dropped although both classes enable them: "
+                                      "keyword arguments silently stop reaching nested objects", loc=fi.loc)
                 if other and not bad:
                     bad = True
                     rep.violation("R19.6", fi.key, f"{fn}: forwarding depends on `{other[0][:80]}`",
@@ -309,3 +357,6 @@ LEVEL_TEXT += _ADD6
 _ADD10 = ' R19.6: contract of get_pack_method_flags / get_unpack_method_flags for a nested class: a flag is forwarded iff both classes enable its option, nothing else.'
 EXPLANATION += _ADD10
 LEVEL_TEXT += _ADD10
+_ADD12 = ' R19.7: outcome contract of get_declared_hook. R19.8: nested dataclasses are packed by a call on the value (dynamic dispatch on the instance class).'
+EXPLANATION += _ADD12
+LEVEL_TEXT += _ADD12
